@@ -101,6 +101,14 @@ CHECKS = {
         "note": "Trusted: ClientState.tla/ClientLoop.tla as transcription of state.rs/eventloop.rs (bound by call-by-call equality replay of MqttState and by trace validation of the real EventLoop), TLC, the scripted in-memory broker of the harness. Exhaustive only for limits 2-3 and a handful of messages; limit 100 sampled by validated traces. v5 reason codes other than success and topic aliases are not modelled.",
         "technique": "TLC model checking of ClientLoop.tla + spec->impl replay into MqttState + TLC trace validation of real EventLoop executions with the property invariants evaluated on every trace state",
     },
+    "C18": {
+        "bins": ["client_keepalive"],
+        "category": "model_checking",
+        "text": "Keepalive.tla is a discrete-time model (one tick = 1/K of the keep-alive interval) of the event loop's keep-alive timer, the await_pingresp flag, a broker that answers each PINGREQ after 0..2K ticks or never, other traffic, keep-alive zero and a stalled handshake against the connection timeout. TLC checks for K = 0,2,3 (v4) and 5 (v5) (thorough: more values): a PINGREQ in every interval, a silent broker reported no later than the second interval, no keep-alive failure while every reply came within the interval, no ping with keep-alive zero, timeout exactly at the configured time. TLC-generated broker schedules are replayed into the real EventLoop (both versions) over the in-memory transport under paused tokio time; the per-tick record of what the client did (PINGREQ seen by the broker, failure reported, PINGRESP delivered) is validated by TLC against KeepaliveTrace.tla with the invariants evaluated in every state.",
+        "design_ref": "DESIGN.md section 6 / C18",
+        "note": "Trusted: Keepalive.tla, TLC, tokio's paused clock (virtual time, one tick = one second), the scripted broker of the harness. A reply landing exactly on a timer tick is left undecided (both outcomes accepted).",
+        "technique": "TLC model checking of a discrete-time TLA+ model + spec->impl replay of TLC-generated broker schedules with TLC trace validation of the recorded ticks",
+    },
     "C12": {
         "bins": ["topics"],
         "category": "exploration",
